@@ -279,7 +279,9 @@ let judge cls ms verb path (reg, res) : string option * string option =
   let ws = (verb = "WS") in
   let verb = if ws then "WEBSOCKET" else verb in
   let want_reg = spec_reg cls ms in
-  if reg = "panic" then (Some "registration panicked", None)
+  if String.length res > 9 && String.sub res 0 9 = "unstable," then
+    (Some (Printf.sprintf "the same request (%s %S) was answered differently the second time on one mux: %s" verb path res), None)
+  else if reg = "panic" then (Some "registration panicked", None)
   else if reg <> want_reg then (Some (Printf.sprintf "registration %s, the template specification says %s" reg want_reg), None)
   else begin
     let (_, dispatched, _) = split3 res in
